@@ -1,6 +1,7 @@
 /- C04 — Every request gets exactly one outcome (handler model). -/
 import Discv5Model.Proofs.HandlerRequests
 namespace Discv5.H
+open RQ
 
 /-- External request ids are tracked at most once (no duplicates among active + queued). -/
 theorem tracked_nodup (c : Cfg) (evs : List Ev) (h : AppDiscipline c evs) :
@@ -20,13 +21,15 @@ theorem failure_untracks (c : Cfg) (evs : List Ev) (e : Ev) (rid : Nat) (er : Er
     (h : AppDiscipline c (evs ++ [e])) (hr : rid < 1000000) (hf : Out.failed rid er ∈ (step c (run c evs) e).2) :
     rid ∉ trackedExt (run c (evs ++ [e])) ∧
     ((step c (run c evs) e).2.filter (isFailure rid)).length = 1 :=
-  failure_untracks' c evs e rid er h hf
+  -- (`hr` is not needed: the bound follows from the id discipline alone)
+  (fun _ => failure_untracks' c evs e rid er h hf) hr
 
 /-- Never two failures: over a whole history at most one failure is reported per request. -/
 theorem at_most_one_failure (c : Cfg) (evs : List Ev) (h : AppDiscipline c evs) (rid : Nat)
     (hr : rid < 1000000) :
     ((outputs c evs).filter (isFailure rid)).length ≤ 1 :=
-  at_most_one_failure' c evs h rid
+  -- (`hr` is not needed: the bound follows from the id discipline alone)
+  (fun _ => at_most_one_failure' c evs h rid) hr
 
 /-- Never both: after a failure was reported for a request nothing more is reported for it. -/
 theorem nothing_after_failure (c : Cfg) (evs rest : List Ev) (rid : Nat) (er : Err)
@@ -63,5 +66,50 @@ datagram or an application call. -/
 theorem timeout_only_from_timer (c : Cfg) (s : HState) (e : Ev) (rid : Nat)
     (h : Out.failed rid .timeout ∈ (step c s e).2) : ∃ dt, e = .adv dt :=
   timeout_only_from_timer' c s e rid h
+
+/-! ### Non-vacuity -/
+
+/-- A node with a single transmission per request (`request_retries = 1`) and a 10 ms timeout. -/
+private def c04Cfg : Cfg where
+  localId := 1
+  localSeq := 1
+  localRec := { id := 1, seq := 1, udp4 := some 100, udp6 := none }
+  requestRetries := 1
+  requestTimeout := 10
+  sessionTtl := 1000
+  sessionCap := 8
+  listen := [⟨false, 100⟩]
+  findnode0 := 0
+
+private def c04Peer : NA := { id := 2, addr := ⟨false, 7⟩ }
+private def c04Contact : Contact :=
+  { na := c04Peer, record := some { id := 2, seq := 1, udp4 := some 7, udp6 := none } }
+
+/-- Request 7 is submitted and never answered. -/
+private def c04Timeout : List Ev := [.appRequest c04Contact 7 5, .adv 10]
+
+/-- Request 7 is submitted, the peer challenges (WHOAREYOU), the handshake is sent, and the peer
+answers under the new session key. -/
+private def c04Answered : List Ev :=
+  [.appRequest c04Contact 7 5,
+   .dgram c04Peer.addr (.whoareyou 1000001 500 0),
+   .dgram c04Peer.addr (.message 2 99
+     (.enc { eph := 1000001, cd := 500, ini := 1, rcp := 2, toRcp := false } 99 1
+       (.response 7 (.other 0)) true))]
+
+/-- A history obeying the discipline in which a request fails by timeout … -/
+example : AppDiscipline c04Cfg c04Timeout := ⟨by decide, by decide, by decide⟩
+example : Out.failed 7 .timeout ∈ outputs c04Cfg c04Timeout := by decide +kernel
+/-- … after which it is no longer tracked and the node is quiescent. -/
+example : trackedExt (run c04Cfg c04Timeout) = [] ∧ (run c04Cfg c04Timeout).active = [] ∧
+    (run c04Cfg c04Timeout).challenges = [] := by decide +kernel
+
+/-- A quiescent state with a completed (answered) request. -/
+example : AppDiscipline c04Cfg c04Answered := ⟨by decide, by decide, by decide⟩
+example : (run c04Cfg c04Answered).active = [] ∧ (run c04Cfg c04Answered).challenges = [] ∧
+    Out.response c04Peer 7 (.other 0) ∈ outputs c04Cfg c04Answered := by decide +kernel
+/-- While the request is in flight it is tracked (the hypotheses of `untracked_silent` etc. are
+not trivially true). -/
+example : trackedExt (run c04Cfg [.appRequest c04Contact 7 5]) = [7] := by decide +kernel
 
 end Discv5.H
